@@ -480,6 +480,11 @@ def gen_c01(tier, seed):
                 A = alphabet(p, rnd, small=True)
                 setters = [u for u in A if u[0].split(",")[0] in ("lut", "refresh", "bg", "border", "wake")]
                 big = p.n > 20000
+                # (wave 13) ... and after a partial update of the WHOLE panel / at the left edge: the
+                # windows a cached "window is the full panel" flag confuses with a full frame
+                for u in whole_panel_partials(p, rnd):
+                    emit(u + [f"upd,pos:{n}", "disp"])
+                    emit(u + [f"updisp,r:{rnd.randint(1, 999)}:{n}"])
                 for u in A:
                     emit(u + [f"upd,pos:{n}", "disp"])
                     for v in (setters if not big else setters[:2]):
@@ -750,6 +755,10 @@ def gen_c05(tier, seed):
         lim = (60 if big else len(pairs)) if tier == "quick" else len(pairs)
         if len(pairs) > lim:
             pairs = rnd.sample(pairs, lim)
+        # (wave 13) partial updates of the WHOLE panel / at the left edge next to every unit, never
+        # sampled away: a "whole window" fast path may skip the wait the ordinary path performs
+        for e in whole_panel_partials(p, rnd):
+            pairs += [([], a, e) for a in A] + [([], e, a) for a in A]
         # the same pairs under every mode-setting prefix (quick LUT / quick refresh)
         modes = [u for u in A if u[0] in ("lut,quick", "refresh,quick")]
         for m in modes:
